@@ -1,6 +1,6 @@
 (* C13 (part 4) -- where the faithful model of the unchanged code violates the full statement:
    `_refuted` (witness) + `_partial` (what does hold) pairs.  The full statements stay visible in comments.
-   (adjoint(3x3) and SE3.jacob are in C13_adjoint3_asis.v / C13_jacob_asis.v.)
+   (adjoint(3x3) and SE3.jacob were repaired in /repo by 892f8ec and 5493c9a: their full statements are in C13_adjoint.v.)
    isR_model (theories/Model/C13_valid.v) is the validity test the SE3 constructor applies, tied numerically. *)
 From Coq Require Import Reals ZArith Lra Psatz Bool.
 From SM Require Import Base.Ops Base.Lin Base.RInst Base.RLin Model.C13_valid.
@@ -28,7 +28,7 @@ Proof. gen_unfold. nra. Qed.
 Theorem C13_Delta_accepted_iff : forall (tol : R) (d : V6 R),
   isR_model Rops tol (t2r3 (tr_delta2tr Rops d)) = true <-> sqrt 2 * normsq3 Rops (tw_w d) < tol * eps Rops.
 Proof.
-  intros tol d. destruct (C13_Delta_defect d) as (Hf & _ & Hd). cbv zeta in *.
+  intros tol d. destruct (C13_Delta_defect d) as (Hf & Hd & _). cbv zeta in *.
   pose proof (normsq3_nonneg (tw_w d)) as Hn. unfold isR_model. rewrite Hf, Hd.
   rewrite sqrt_mult_alt by lra. rewrite sqrt_square by exact Hn.
   rewrite andb_true_iff. change (ltb Rops) with Rltb. rewrite !Rltb_true.
